@@ -20,6 +20,9 @@ import traceback
 import multiprocessing as mp
 from fractions import Fraction
 
+for _v in ('OMP_NUM_THREADS', 'OPENBLAS_NUM_THREADS', 'MKL_NUM_THREADS'):
+    os.environ.setdefault(_v, '1')          # many worker processes: no BLAS thread pools
+
 import numpy as np
 import pandas as pd
 
@@ -168,7 +171,7 @@ def c_triples(ts):
 
 
 HEADER = ("From Coq Require Import List String ZArith QArith Qcanon.\n"
-          "From PV Require Import Model.SensorModel.\nImport ListNotations.\n")
+          "From PV Require Import Model.SensorModel.\nImport ListNotations.\nOpen Scope nat_scope.\n")
 
 
 def parse_mismatches(out):
